@@ -238,7 +238,14 @@ unsafe impl GlobalAlloc for Audit {
     }
 }
 
+// Under Miri (`cargo +nightly miri run --bin c18 -- run`, thorough-tier support, see notes/wp/W8.md) the interpreter itself
+// checks every allocation, deallocation layout and access: the auditing allocator is left out (its 24 MB table would only
+// slow the interpreter down), `owned` sizes are then reported as null and only Miri's own verdict counts.
+#[cfg(not(miri))]
 #[global_allocator]
+static GLOBAL: Audit = Audit;
+#[cfg(miri)]
+#[allow(dead_code)]
 static GLOBAL: Audit = Audit;
 
 /// the recorded size of a live allocation
@@ -540,7 +547,9 @@ struct Exec {
 }
 
 struct CList {
-    strings: Vec<CString>,
+    /// C strings owned by this list, as raw pointers (`CString::into_raw`): a `CString` must not be moved after its
+    /// pointer was taken (Stacked Borrows), so the list keeps the raw pointers and frees them in `drop`
+    strings: Vec<*mut c_char>,
     nodes: Vec<Box<CHeaderMap>>,
 }
 
@@ -549,20 +558,31 @@ impl CList {
     fn new(headers: &[(String, String)]) -> CList {
         let mut l = CList { strings: Vec::new(), nodes: Vec::new() };
         for (n, v) in headers {
-            let cn = CString::new(n.replace('\0', "")).unwrap();
-            let cv = CString::new(v.replace('\0', "")).unwrap();
-            l.nodes.push(Box::new(CHeaderMap { name: cn.as_ptr(), value: cv.as_ptr(), next: null_mut() }));
+            let cn = CString::new(n.replace('\0', "")).unwrap().into_raw();
+            let cv = CString::new(v.replace('\0', "")).unwrap().into_raw();
             l.strings.push(cn);
             l.strings.push(cv);
+            l.nodes.push(Box::new(CHeaderMap { name: cn, value: cv, next: null_mut() }));
         }
-        for i in 0..l.nodes.len() {
-            let next = if i + 1 < l.nodes.len() { &mut *l.nodes[i + 1] as *mut CHeaderMap } else { null_mut() };
-            l.nodes[i].next = next;
+        // link through raw pointers taken once, after the boxes are in place
+        let ptrs: Vec<*mut CHeaderMap> = l.nodes.iter_mut().map(|n| &mut **n as *mut CHeaderMap).collect();
+        for i in 0..ptrs.len() {
+            let next = if i + 1 < ptrs.len() { ptrs[i + 1] } else { null_mut() };
+            let p = ptrs[i];
+            unsafe { (*p).next = next };
         }
         l
     }
     fn head(&self) -> *const CHeaderMap {
         self.nodes.first().map(|n| &**n as *const CHeaderMap).unwrap_or(null())
+    }
+}
+
+impl Drop for CList {
+    fn drop(&mut self) {
+        for p in self.strings.drain(..) {
+            drop(unsafe { CString::from_raw(p) });
+        }
     }
 }
 
